@@ -236,6 +236,26 @@ def _job(job):
                 break
         if len(kinds) >= 2:
             out['nontrivial'] += 1
+        # B.<Rule>.parse: every rule available at this level - its own, overridden or inherited ones alike - is an entry
+        # point of this module and sees this module's overrides
+        for name in job['names'][li]:
+            ra, rb = getattr(mod, name, None), getattr(flat, name, None)
+            if ra is None or rb is None:
+                out['mismatches'].append({'kind': 'spec', 'level': li, 'input': None, 'entry': name,
+                                          'what': f'rule {name} is not available as an attribute of level {li} of the chain'})
+                break
+            hit = False
+            for text in job['inputs'][::2]:
+                a = rr.run_real_api(ra.parse, text, 0, True, limit=3.0)[0]
+                b = rr.run_real_api(rb.parse, text, 0, True, limit=3.0)[0]
+                out['n'] += 1
+                if a != b and not (a[0] == b[0] == 'E'):
+                    out['mismatches'].append({'kind': 'spec', 'level': li, 'input': text, 'real': a, 'flat': b, 'entry': name,
+                                              'what': f'{name}.parse({text!r}) of level {li} of the chain gives {a}, the flattened grammar gives {b}'})
+                    hit = True
+                    break
+            if hit:
+                break
     # the base must still behave as it did before the children existed
     base = mods[0]
     for text, was in zip(job['inputs'], before or []):
@@ -263,7 +283,11 @@ def run(tier, seed, lean):
             names = [f'c13pkg{seed}.m{i}.l{li}' for li in range(len(levels))]      # dotted names
         texts = [level_text(lv, names[li], names[li - 1] if li else None) for li, lv in enumerate(levels)]
         flats = [flatten(levels, li) for li in range(len(levels))]
-        jobs.append({'id': i, 'texts': texts, 'flat': flats, 'inputs': inputs, 'base_before': None})
+        avail, seen = [], []
+        for lv in levels:
+            seen = list(dict.fromkeys(seen + [n for n, _ in lv['rules']]))
+            avail.append(list(seen))
+        jobs.append({'id': i, 'texts': texts, 'flat': flats, 'inputs': inputs, 'base_before': None, 'names': avail})
         for li, ft in enumerate(flats):
             flat_jobs.append({'id': len(flat_jobs), 'text': ft, 'cases': [(0, t) for t in inputs], 'entries': ['__module__'], 'fuel': 300,
                               'meta': {'ctx': f'flattened level {li}'}})
@@ -295,6 +319,9 @@ def run(tier, seed, lean):
     v3, n3 = template_chains(seed)
     violations += v3
     n2 += n3
+    v4, n4 = class_chains(seed)
+    violations += v4
+    n2 += n4
     cov = {
         'evaluations': evals + summ['coverage']['evaluations'] + n2,
         'distinct_nontrivial': nontrivial,
@@ -414,6 +441,62 @@ def template_chains(seed):
                     bad.append({'key': f'tchain|{ci}|{li}|{t}', 'sig': f'tchain|{ci}|{li}', 'kind': 'spec',
                                 'what': f'template chain {ci}: parsing {t!r} through level {li} gives {a}, its flattening gives {b}'})
                     break
+    return bad, n
+
+
+CLASS_CHAINS = [
+    # (levels, flattened grammar per level, [(entry, input)])
+    (['grammar {p}a\nstart = K\nclass K {{ x: Item; y: Item* }}\nItem = "a"\nList = K // ","\n',
+      'grammar {p}b extends {p}a\noverride Item = "b" | super.Item\n',
+      'grammar {p}c extends {p}b\noverride Item = "c" | super.Item\nclass L {{ k: K }}\n'],
+     ['start = K\nclass K {{ x: Item; y: Item* }}\nItem = "a"\nList = K // ","\n',
+      'start = K\nclass K {{ x: Item; y: Item* }}\nItem = "b" | "a"\nList = K // ","\n',
+      'start = K\nclass K {{ x: Item; y: Item* }}\nItem = "c" | ("b" | "a")\nList = K // ","\nclass L {{ k: K }}\n'],
+     [(e, t) for e in ('start', 'K', 'Item', 'List', 'L') for t in ('a', 'ab', 'ba', 'cab', 'ab,b', 'c,a', 'd', '')]),
+    (['grammar {p}a\nignore / +/\nclass Start {{ head: Word; tail: Tail }}\nclass Tail {{ items: Word* }}\nWord = /[a-z]+/\n',
+      'grammar {p}b extends {p}a\noverride Word = /[0-9]+/ | super.Word\n'],
+     ['ignore / +/\nclass Start {{ head: Word; tail: Tail }}\nclass Tail {{ items: Word* }}\nWord = /[a-z]+/\n',
+      'ignore / +/\nclass Start {{ head: Word; tail: Tail }}\nclass Tail {{ items: Word* }}\nWord = /[0-9]+/ | /[a-z]+/\n'],
+     [(e, t) for e in ('Start', 'Tail', 'Word') for t in ('ab 12', '12 ab cd', 'ab', '12', '')]),
+]
+
+
+def class_chains(seed):
+    """entry points of rules *and classes*, own and inherited, at every level of a chain with classes"""
+    import realrun as rr
+    bad = []
+    n = 0
+    for ci, (levels, flats, cases) in enumerate(CLASS_CHAINS):
+        prefix = f'c13k{seed}_{ci}_'
+        fix = lambda t: t.replace('{p}', prefix).replace('{{', '{').replace('}}', '}')      # noqa: E731
+        try:
+            mods = [rr.compile_grammar(fix(t))[0] for t in levels]
+        except Exception as exc:      # noqa: BLE001
+            bad.append({'key': f'kchain|{ci}', 'sig': f'kchain|{ci}', 'kind': 'spec',
+                        'what': f'creating class chain {ci} raised {type(exc).__name__}: {str(exc)[:200]}'})
+            continue
+        kinds = {}
+        for li, (mod, ft) in enumerate(zip(mods, flats)):
+            flat, _ = rr.compile_grammar(fix(ft))
+            for entry, t in cases:
+                ra, rb = getattr(mod, entry, None), getattr(flat, entry, None)
+                if rb is None:
+                    continue                      # not defined at this level
+                n += 1
+                if ra is None:
+                    bad.append({'key': f'kchain|{ci}|{li}|{entry}', 'sig': f'kchain|{ci}|{li}|{entry}', 'kind': 'spec',
+                                'what': f'class chain {ci}: {entry} is not available at level {li}'})
+                    continue
+                a = rr.run_real_api(ra.parse, t, 0, True)[0]
+                b = rr.run_real_api(rb.parse, t, 0, True)[0]
+                if a != b and not (a[0] == b[0] == 'E'):
+                    own = any(f'class {entry} ' in fix(x) for x in levels[li:li + 1])
+                    is_class = any(f'class {entry} ' in fix(x) for x in levels[:li + 1])
+                    item = {'key': f'kchain|{ci}|{li}|{entry}|{t}', 'sig': f'kchain|{ci}|{li}|{entry}', 'kind': 'spec',
+                            'what': f'class chain {ci}: {entry}.parse({t!r}) at level {li} gives {a}, its flattening gives {b}'}
+                    if is_class and not own and li > 0:
+                        item['finding_class'] = 'inherited-class-entry-point'
+                    bad.append(item)
     return bad, n
 
 
